@@ -53,6 +53,10 @@ func init() {
 		// annotation keys inside NewNodeClaimTemplate (the hash must be computed from the template the NodeClaim is built
 		// from, not read from the NodePool's eventually-consistent annotation)
 		g.c15Stamps(grd, "pkg/controllers/provisioning/scheduling", "NewNodeClaimTemplate")
+		// the NodeClaim NewNodeClaimTemplate starts from shares its label / annotation maps with the NodePool's template
+		// (v1.NodeClaimTemplate.ToNodeClaim copies nothing): every map it fills must be a fresh one (lo.Assign), never
+		// written in place — the static-capacity code builds several templates from one NodePool object
+		g.c15InPlaceWrites(grd, "pkg/controllers/provisioning/scheduling", "NewNodeClaimTemplate", "claimTemplateInPlaceWrites")
 		// which offerings the instance-type check consults: the full list (HasCompatible directly on it.Offerings), not a
 		// filtered one (an offering that is merely unavailable at the moment is still offered)
 		g.callSeq(grd, "pkg/controllers/nodeclaim/disruption", "instanceTypeNotFound", "instanceTypeNotFoundOfferingCalls",
@@ -82,6 +86,45 @@ func c15RenderFull(e ast.Expr) string {
 		return c15RenderFull(se.X) + "." + se.Sel.Name
 	}
 	return c15Render(e)
+}
+
+// c15InPlaceWrites emits every in-place write to an indexable value inside fn: the rendered `m[…]` target of an index
+// assignment (`m[k] = v`, `m[k] += v`, `m[k]++`) and the first argument of `delete(m, k)` / `clear(m)`, in source order.
+func (g *gen) c15InPlaceWrites(group, pkgPath, fn, lean string) {
+	_, fd := g.findFunc(pkgPath, fn)
+	if fd == nil {
+		return
+	}
+	writes := []string{}
+	target := func(e ast.Expr) {
+		if ix, ok := e.(*ast.IndexExpr); ok {
+			writes = append(writes, c15Render(ix.X)+"[…]")
+		}
+	}
+	ast.Inspect(fd.Body, func(nd ast.Node) bool {
+		switch v := nd.(type) {
+		case *ast.AssignStmt:
+			for _, lhs := range v.Lhs {
+				target(lhs)
+			}
+		case *ast.IncDecStmt:
+			target(v.X)
+		case *ast.CallExpr:
+			if id, ok := v.Fun.(*ast.Ident); ok && (id.Name == "delete" || id.Name == "clear") && len(v.Args) > 0 {
+				writes = append(writes, id.Name+"("+c15Render(v.Args[0])+")")
+			}
+		}
+		return true
+	})
+	b := g.out(group)
+	fmt.Fprintf(b, "/-- every in-place write (index assignment, delete, clear) inside `%s.%s` (%s) -/\ndef %s : List String := [", pkgPath, fn, g.pos(fd.Pos()), lean)
+	for i, v := range writes {
+		if i > 0 {
+			b.WriteString(", ")
+		}
+		b.WriteString(leanStr(v))
+	}
+	b.WriteString("]\n\n")
 }
 
 // c15Stamps emits, for fn, the name of its first parameter and every expression that a map literal inside fn assigns to
